@@ -2,7 +2,7 @@
 """writes SENSITIVITY.md from seeded/*/meta.json and seeded/*/check_*.json"""
 import json, glob, os
 rows = []
-for d in sorted(glob.glob("/verif/seeded/C*m[0-9]") + glob.glob("/verif/seeded/C*_rf[0-9]")):
+for d in sorted(glob.glob("/verif/seeded/C*m[0-9]") + glob.glob("/verif/seeded/C*_rf[0-9]") + glob.glob("/verif/seeded/C*_rg[0-9]")):
     meta = json.load(open(d + "/meta.json"))
     res = {}
     for t in ("quick", "thorough"):
@@ -45,6 +45,6 @@ L += ["", "Verdicts: DETECTED = exit 1 with a VIOLATION line whose counterexampl
       "Rows marked [behaviour-preserving] are refactors under which the property still holds: the wanted verdict is pass (exit 0); exit 1 there would be a false alarm.", ""]
 open("/verif/SENSITIVITY.md", "w").write("\n".join(L) + "\n")
 det = sum(1 for r in rows if r[3].get("quick") == "DETECTED" or r[3].get("thorough") == "DETECTED")
-rf = [r for r in rows if "_rf" in r[0]]
+rf = [r for r in rows if "_rf" in r[0] or "_rg" in r[0]]
 print(len(rows) - len(rf), "breaking changes;", det, "detected;", len(rf), "behaviour-preserving refactors:", sum(1 for r in rf if r[3].get("quick") == "pass (exit 0)"), "pass,",
       sum(1 for r in rf if "inconclusive" in r[3].get("quick", "")), "inconclusive,", sum(1 for r in rf if "FALSE" in r[3].get("quick", "")), "false alarms")
